@@ -10,6 +10,7 @@ use serde::{Deserialize, Serialize};
 use std::collections::HashMap;
 
 pub const BUDGET: u64 = 1500;
+const DELAY_N: &[u32] = &[1, 2, 3, 5, 20, 100, 300];
 /// Work bound: token-cursor reads per call <= WORK_FACTOR * (tokens on the line + 2).
 /// Calibrated on the unchanged tree (max observed ratio 5.125, see evidence
 /// `max_reads_per_token`), doubled.
@@ -270,6 +271,27 @@ fn long_line_case() -> impl Strategy<Value = StepCase> {
 
 pub fn property() -> Property {
     let families: Vec<Box<dyn Family>> = vec![
+        // delay loops and other empty-bodied loops, the classic idiom whose every pass must still be a host turn
+        enum_family(
+            "delay-loops",
+            true,
+            |_| (DELAY_N.len() * 6) as u64,
+            |_, i| {
+                let n = DELAY_N[(i as usize) % DELAY_N.len()] as f64;
+                let t = || "Y".to_string();
+                let f = |step: Option<f64>| Stmt::For { var: t(), from: Expr::Num(1.0), to: Expr::Num(n), step: step.map(Expr::Num) };
+                let lines = match (i as usize) / DELAY_N.len() {
+                    0 => vec![Line { number: 10, stmts: vec![f(None), Stmt::Next(t())] }],
+                    1 => vec![Line { number: 10, stmts: vec![f(Some(2.0)), Stmt::Next(t()), Stmt::Print(vec![PrintItem::Expr(Expr::var("Y"))])] }],
+                    2 => vec![Line { number: 10, stmts: vec![f(None)] }, Line { number: 20, stmts: vec![Stmt::Next(t())] }],
+                    3 => vec![Line { number: 10, stmts: vec![Stmt::Print(vec![]), f(None), Stmt::Empty, Stmt::Next(t())] }],
+                    4 => vec![Line { number: 10, stmts: vec![f(None), Stmt::For { var: "W".into(), from: Expr::Num(1.0), to: Expr::Num(2.0), step: None }, Stmt::Next("W".into()), Stmt::Next(t())] }],
+                    _ => vec![Line { number: 10, stmts: vec![f(None), Stmt::Rem(" wait".into())] }, Line { number: 20, stmts: vec![Stmt::Next(t()), Stmt::Goto(30)] }, Line { number: 30, stmts: vec![Stmt::End] }],
+                };
+                StepCase { prog: Program { lines }, style: Style::PLAIN, seed: 0, replies: vec![], break_after: 3 }
+            },
+            check,
+        ),
         prop_family(
             "programs",
             20_000,
